@@ -44,7 +44,7 @@ def _get_limits_tol(lb, ub):
             weight[is_finite],
             np.abs(array[is_finite]),
         )
-    return get_arrays_tol(lb, ub) * weight / np.max(weight, initial=1.0)
+    return get_arrays_tol(lb, ub) / np.max(weight, initial=1.0) * weight
 
 
 class ObjectiveFunction:
